@@ -380,7 +380,14 @@ def check(P, R, tier):
     check_roman(P, R)
     check_pairs(P, R)
     check_width(P, R)
-    check_ampm(P, R)
+    try:
+        check_ampm(P, R)
+    except AnalysisBroken as e:
+        # the pattern rule knows one way of writing the 12-hour clock; the decode below decides the behaviour either way
+        R.notes.append("RF2-ampm not applied: %s" % str(e)[:160])
+    import tfmtdecode
+    nt = tfmtdecode.run_parallel(R, P, "RF2-tfmt", every=(tier == "thorough"), jobs=12)
+    R.floor("RF2-tfmt", "printed and re-parsed time texts", nt, 5000)
 
 
 LEVEL = ("Decides the case-by-case agreement of the separately written parser and printer switches for every specifier: a case on "
